@@ -207,7 +207,32 @@ def dsk7(ctx, c):
                 c.check("granules_needed" in U(n.test) or "calculate_granules_needed" in U(n.test), "add_file:allocation-count", "allocates granules_needed granules", "loop test %s" % U(n.test),
                         "add_file's allocation loop is not bounded by the number of granules needed", wa)
     if not found:
-        c.undecided("add_file:allocation", "allocation-loop-not-found", "", wa)
+        # allocation without the per-granule loop: the list handed to the writer must be proven to hold granules_needed entries
+        wcall = next((n for n in ast.walk(af.node) if isinstance(n, ast.Call) and U(n.func).endswith(".write_to_granules") and len(n.args) >= 2), None)
+        lst = U(wcall.args[1]) if wcall is not None else None
+        scope = [af]
+        src = None
+        for n in ast.walk(af.node):
+            if isinstance(n, ast.Assign) and lst and U(n.targets[0]) == lst:
+                src = n.value
+        if isinstance(src, ast.Call) and U(src.func).startswith("self.") and repo.lookup(repo.cls(CLS), U(src.func)[5:]):
+            scope.append(repo.lookup(repo.cls(CLS), U(src.func)[5:]))
+        guard = False
+        sliced = False
+        for f_ in scope:
+            for n in ast.walk(f_.node):
+                if isinstance(n, ast.Subscript) and isinstance(n.slice, ast.Slice) and n.slice.lower is None and n.slice.upper is not None and "needed" in U(n.slice.upper):
+                    sliced = True
+                if isinstance(n, ast.If) and n.body and isinstance(n.body[-1], ast.Raise) and isinstance(n.test, ast.Compare) and "len(" in U(n.test) and "needed" in U(n.test):
+                    guard = True
+        if sliced and not guard:
+            c.finding("add_file:allocation", "takes the first n free granules without checking that n were free",
+                      "add_file allocates by slicing the list of free granules to granules_needed entries and only fails when none is free: with fewer free granules than needed the file is "
+                      "stored truncated and no error is raised", wa)
+        elif sliced and guard:
+            c.ok("add_file:allocation", "slice of the free list, guarded by a length comparison", wa)
+        else:
+            c.undecided("add_file:allocation", "allocation-shape-unknown", "", wa)
     # directory slot search and the full-directory error
     fe = repo.method(CLS, "find_empty_directory_entry")
     we = repo.loc(fe, fe.node)
@@ -965,6 +990,21 @@ def dsk5(ctx, c):
         if isinstance(n, ast.If) and isinstance(n.test, ast.Compare) and U(n.test.left) == "len(%s)" % p_data:
             fit = n
     if fit is None:
+        # a fit test over something else than the data length alone: compare with the reader, which splits on the data length alone
+        alt = next((n for n in body_without_doc(fn.node) if isinstance(n, ast.If) and isinstance(n.test, ast.Compare) and "len(%s)" % p_data in U(n.test.left)), None)
+        if alt is not None:
+            names = {x.id for x in ast.walk(alt.test) if isinstance(x, ast.Name)}
+            deps = set()
+            for n in ast.walk(fn.node):
+                if isinstance(n, ast.Assign) and isinstance(n.targets[0], ast.Name) and n.targets[0].id in names:
+                    deps |= {x.id for x in ast.walk(n.value) if isinstance(x, ast.Name)}
+            if p_post in names | deps:
+                rd_ = repo.method(CLS, "read_data")
+                if p_post not in U(rd_.node) and "postamble" not in U(rd_.node):
+                    c.finding("write_to_granules:split", "the writer's split depends on the trailer (%s), the reader's does not" % U(alt.test),
+                              "write_to_granules decides whether a file ends in this granule with `%s`, which involves the trailer, while read_data/list_files split on the data length alone and look for "
+                              "the trailer right behind the data: files whose trailer would straddle a granule end are written one way and read another" % U(alt.test), repo.loc(fn, alt))
+                    return
         c.undecided("write_to_granules", "fit-test-not-found", "", where)
         return
     op = type(fit.test.ops[0]).__name__
